@@ -22,7 +22,7 @@ import (
 
 // Ref describes an InResponseTo value relative to the outstanding set.
 type Ref struct {
-	Class string `json:"class"`           // match | other | not | near | empty | absent
+	Class string `json:"class"`           // match | other | not | near | empty | absent | nodata (confirmations only: no SubjectConfirmationData element at all)
 	Index int    `json:"index,omitempty"` // which outstanding ID is meant (match / near)
 	Kind  string `json:"kind,omitempty"`  // near-miss kind: prefix | suffix | case | plusx | space
 }
@@ -102,7 +102,7 @@ func resolve(r Ref, outstanding []string) (*string, bool) {
 		v = forge.S(nearOf(pick(), r.Kind))
 	case "empty":
 		v = forge.S("")
-	case "absent":
+	case "absent", "nodata":
 		v = nil
 	}
 	eff := ""
@@ -125,16 +125,19 @@ func check(c Case) pbt.Result {
 	a := &r.Assertions[0]
 	a.Confirmations = nil
 	allConfIn := true
+	bareConf := false // some confirmation has no data element: it cannot be said to answer any request, but
+	// whether such an assertion is acceptable when "" is listed is not C04's to say
 	for i, cf := range c.Confs {
 		v, in := resolve(cf, c.Outstanding)
 		if !in {
 			allConfIn = false
 		}
+		bareConf = bareConf || cf.Class == "nodata"
 		m := ""
 		if i < len(c.Methods) {
 			m = methodURI(c.Methods[i])
 		}
-		a.Confirmations = append(a.Confirmations, forge.Confirmation{Method: m, Recipient: forge.S(spkit.SPACS), InResponseTo: v, NotOnOrAfter: forge.TP(now.Add(300e9))})
+		a.Confirmations = append(a.Confirmations, forge.Confirmation{Method: m, Recipient: forge.S(spkit.SPACS), InResponseTo: v, NotOnOrAfter: forge.TP(now.Add(300e9)), NoData: cf.Class == "nodata"})
 	}
 	if c.NoDest && !c.RespSigned {
 		r.Destination = nil
@@ -287,7 +290,7 @@ func check(c Case) pbt.Result {
 		}
 	case c.AllowIDP || c.Validator != "":
 		// only the positive clause remains: a valid response to an outstanding request is accepted
-		if allIn && c.Validator != "reject" {
+		if allIn && c.Validator != "reject" && !bareConf {
 			res.Classes = append(res.Classes, "model:must-accept")
 			if !o.Accepted() {
 				res.Err = "valid response to an outstanding request rejected: " + desc()
@@ -295,6 +298,8 @@ func check(c Case) pbt.Result {
 		} else {
 			res.Classes = append(res.Classes, "model:dont-care")
 		}
+	case allIn && bareConf:
+		res.Classes = append(res.Classes, "model:dont-care")
 	case allIn:
 		res.Classes = append(res.Classes, "model:must-accept")
 		if !o.Accepted() {
@@ -323,6 +328,7 @@ var outstandingSets = [][]string{
 }
 
 var refClasses = []string{"match", "match", "match", "other", "not", "near", "empty", "absent"}
+var confClasses = append(append([]string{}, refClasses...), "nodata")
 var nearKindsList = []string{"prefix", "suffix", "case", "plusx", "space"}
 
 func genRef(t *rapid.T, label string) Ref {
@@ -347,7 +353,7 @@ func gen(t *rapid.T) Case {
 		Encrypted:   rapid.IntRange(0, 4).Draw(t, "enc") == 0,
 	}
 	if rapid.IntRange(0, 2).Draw(t, "othertrust") == 0 {
-		c.Trust = rapid.SampledFrom(spkit.Trusts).Draw(t, "trust")
+		c.Trust = rapid.SampledFrom(spkit.TrustsIDP).Draw(t, "trust")
 	}
 	c.Warm = rapid.IntRange(0, 3).Draw(t, "warm") == 0
 	if rapid.IntRange(0, 2).Draw(t, "noise?") == 0 {
@@ -366,7 +372,11 @@ func gen(t *rapid.T) Case {
 		if rapid.IntRange(0, 2).Draw(t, "same") != 0 {
 			c.Confs = append(c.Confs, c.Resp)
 		} else {
-			c.Confs = append(c.Confs, genRef(t, "conf"))
+			cr := genRef(t, "conf")
+			if rapid.IntRange(0, 7).Draw(t, "bare") == 0 {
+				cr = Ref{Class: "nodata"}
+			}
+			c.Confs = append(c.Confs, cr)
 		}
 	}
 	for range c.Confs {
@@ -384,6 +394,29 @@ func gen(t *rapid.T) Case {
 
 // enumClassProduct: outstanding sets x response-level class x confirmation-level class
 // (1 and 2 confirmations, the second varied) x AllowIDPInitiated x validator x entry point.
+// enumBareConfirmations: a confirmation without any SubjectConfirmationData, alone or beside one that answers an
+// outstanding request, for every outstanding set, entry point, signing layout, plain and encrypted.
+func enumBareConfirmations(_ string, emit func(Case)) {
+	bare, match := Ref{Class: "nodata"}, Ref{Class: "match"}
+	for _, set := range outstandingSets {
+		for _, entry := range []string{"xml", "post", "artifact-xml", "artifact-http"} {
+			for _, confs := range [][]Ref{{bare}, {match, bare}, {bare, match}, {bare, bare}} {
+				for _, rs := range []bool{false, true} {
+					for _, enc := range []bool{false, true} {
+						for _, m := range []string{"", "hok"} {
+							c := Case{Outstanding: append([]string{}, set...), Resp: match, Confs: confs, Entry: entry, Artifact: match, RespSigned: rs, ArtSigned: !rs, Encrypted: enc}
+							for range confs {
+								c.Methods = append(c.Methods, m)
+							}
+							emit(c)
+						}
+					}
+				}
+			}
+		}
+	}
+}
+
 func enumClassProduct(tier string, emit func(Case)) {
 	var refs []Ref
 	for _, cl := range []string{"match", "other", "not", "empty", "absent"} {
@@ -393,12 +426,13 @@ func enumClassProduct(tier string, emit func(Case)) {
 	for _, k := range nearKindsList {
 		refs = append(refs, Ref{Class: "near", Kind: k})
 	}
+	crefs := append(append([]Ref{}, refs...), Ref{Class: "nodata"})
 	entries := []string{"xml", "post", "artifact-xml", "artifact-http"}
 	arts := []Ref{{Class: "match"}, {Class: "not"}, {Class: "near", Kind: "prefix"}, {Class: "near", Kind: "plusx"}, {Class: "empty"}, {Class: "absent"}}
 	idx := 0
 	for _, set := range outstandingSets {
 		for _, rr := range refs {
-			for _, cr := range refs {
+			for _, cr := range crefs {
 				for _, two := range []bool{false, true} {
 					for _, allow := range []bool{false, true} {
 						for _, val := range []string{"", "accept", "reject"} {
@@ -432,14 +466,14 @@ func enumClassProduct(tier string, emit func(Case)) {
 
 var prop = &pbt.Prop[Case]{
 	ID: "C04",
-	Rule: "cases: a genuinely IdP-signed, otherwise valid response whose InResponseTo at the Response and at each of 0-3 subject confirmations is {matching, other outstanding, not outstanding, near-miss (prefix/suffix/case/+x/space), empty, absent} (confirmations of any method: bearer, holder-of-key, sender-vouches; unsigned Responses with and without Destination) relative to a declared outstanding set " +
+	Rule: "cases: a genuinely IdP-signed, otherwise valid response whose InResponseTo at the Response and at each of 0-3 subject confirmations is {matching, other outstanding, not outstanding, near-miss (prefix/suffix/case/+x/space), empty, absent, or - for a confirmation - no SubjectConfirmationData element at all} (confirmations of any method: bearer, holder-of-key, sender-vouches; unsigned Responses with and without Destination) relative to a declared outstanding set " +
 		"({}, {a}, {a,b,c}, {\"\"}, {a,\"\"}, near-miss sets, random sets), crossed with AllowIDPInitiated, custom ValidateRequestID {none, accept, reject} and entry point {XML, POST, ParseXMLArtifactResponse, ParseResponse+SAMLart with a harness resolver that reads the ArtifactResolve ID the SP just issued}; " +
-		"class product enumerated completely in thorough (every 7th member in quick) plus rapid draws. oracle: reference model (absent = \"\"); with AllowIDPInitiated / custom validator only the positive clause is judged; zero confirmations judged on the response-level clause only. " +
+		"class product enumerated completely in thorough (every 7th member in quick) plus rapid draws. oracle: reference model (absent = \"\"); with AllowIDPInitiated / custom validator only the positive clause is judged; zero confirmations judged on the response-level clause only; a confirmation without data counts as absent for must-reject and makes must-accept a don't-care. " +
 		"non-trivial: outstanding set with >= 2 members, \"\" or near-miss members, response- and confirmation-level classes differ, near-miss value, or artifact entry. distinct: sha256 of the JSON case.",
 	Gen:         gen,
 	Check:       check,
 	Reset:       fix.Reset,
-	Enums:       []pbt.Enum[Case]{{Name: "class-product", Each: enumClassProduct}},
+	Enums:       []pbt.Enum[Case]{{Name: "class-product", Each: enumClassProduct}, {Name: "confirmations-without-data", Each: enumBareConfirmations}},
 	Assumptions: []string{"all other conditions (addressing, instants, signatures) are valid in every case"},
 }
 
